@@ -43,6 +43,19 @@ fn normal_pdf(mean: f64, variance: f64, x: f64) -> f64 {
     (1.0 / (2.0 * std::f64::consts::PI * variance).sqrt()) * (-(x - mean) * (x - mean) / (2.0 * variance)).exp()
 }
 
+/// `Gaussian::approximating`: the mean and the (population) variance of the data
+fn run_approx<T>(data: &str) -> String
+where
+    T: Real + ParseElem + std::fmt::Display,
+    for<'a> &'a T: RealRef<T>,
+{
+    let data = parse_elems::<T>(data);
+    match catch(|| Gaussian::approximating(data.into_iter())) {
+        Ok(g) => format!("mean={} variance={}", g.mean, g.variance),
+        Err(k) => panic_str(k),
+    }
+}
+
 /// one multivariate draw through the matrix or the tensor variant, with a counting source
 fn run_mv<T>(toks: &[&str]) -> String
 where
@@ -169,35 +182,65 @@ impl Runner {
             }
             "new" => {
                 let nums: Vec<usize> = toks[3..].iter().map(|t| t.parse().expect("usize")).collect();
+                // distinct element values, so that the accessor / payload comparisons mean something
+                let ids = |from: u64, n: usize| (0..n as u64).map(|i| Fp(from + i)).collect::<Vec<Fp>>();
                 if toks[2] == "matrix" {
                     let r = catch(|| {
-                        MultivariateGaussian::new(
-                            Matrix::from_flat_row_major((nums[0], nums[1]), vec![Fp(1); nums[0] * nums[1]]),
-                            Matrix::from_flat_row_major((nums[2], nums[3]), vec![Fp(1); nums[2] * nums[3]]),
-                        );
+                        let mean = Matrix::from_flat_row_major((nums[0], nums[1]), ids(1, nums[0] * nums[1]));
+                        let cov = Matrix::from_flat_row_major((nums[2], nums[3]), ids(100, nums[2] * nums[3]));
+                        let g = MultivariateGaussian::new(mean.clone(), cov.clone());
+                        *g.mean() == mean && *g.covariance() == cov
                     });
                     match r {
-                        Ok(()) => "ok".into(),
+                        Ok(same) => format!("ok ## accessors={}", if same { "ok" } else { "bad" }),
                         Err(k) => panic_str(k),
                     }
                 } else {
                     let r = catch(|| {
-                        MultivariateGaussianTensor::new(
-                            Tensor::from([("m", nums[0])], vec![Fp(1); nums[0]]),
-                            Tensor::from([("a", nums[1]), ("b", nums[2])], vec![Fp(1); nums[1] * nums[2]]),
-                        )
-                        .map(|_| ())
-                        .map_err(|e| match *e {
-                            MultivariateGaussianError::NotCovarianceMatrix { .. } => "NotCovarianceMatrix",
-                            MultivariateGaussianError::MeanVectorWrongLength { .. } => "MeanVectorWrongLength",
-                            _ => "other",
-                        })
+                        let mean = Tensor::from([("m", nums[0])], ids(1, nums[0]));
+                        let cov = Tensor::from([("a", nums[1]), ("b", nums[2])], ids(100, nums[1] * nums[2]));
+                        match MultivariateGaussianTensor::new(mean.clone(), cov.clone()) {
+                            Ok(g) => Ok(*g.mean() == mean && *g.covariance() == cov),
+                            Err(e) => {
+                                let shown = format!("{}", e);
+                                // every error is a std::error::Error
+                                let _: &dyn std::error::Error = &*e;
+                                Err(match *e {
+                                    MultivariateGaussianError::NotCovarianceMatrix { mean: m, covariance: c } => (
+                                        "NotCovarianceMatrix",
+                                        m == mean && c == cov,
+                                        shown == format!("Covariance matrix is not square: {:?}", cov),
+                                    ),
+                                    MultivariateGaussianError::MeanVectorWrongLength { mean: m, covariance: c } => (
+                                        "MeanVectorWrongLength",
+                                        m == mean && c == cov,
+                                        shown
+                                            == format!(
+                                                "Mean vector has a different length {:?} to the covariance matrix size: {:?}",
+                                                mean.shape(),
+                                                cov.shape()
+                                            ),
+                                    ),
+                                    _ => ("other", false, false),
+                                })
+                            }
+                        }
                     });
+                    let okb = |b: bool| if b { "ok" } else { "bad" };
                     match r {
-                        Ok(Ok(())) => "ok".into(),
-                        Ok(Err(e)) => format!("err({})", e),
+                        Ok(Ok(same)) => format!("ok ## accessors={}", okb(same)),
+                        Ok(Err((e, payload, display))) => {
+                            format!("err({}) ## payload={} display={}", e, okb(payload), okb(display))
+                        }
                         Err(k) => panic_str(k),
                     }
+                }
+            }
+            "approx" => {
+                if toks[2] == "rat" {
+                    run_approx::<Rat>(toks[3])
+                } else {
+                    run_approx::<Fp>(toks[3])
                 }
             }
             _ => "bad-op".into(),
@@ -446,6 +489,19 @@ pub fn gen(g: &mut Gen) {
                 ));
             }
             g.count(&format!("mv.rat.{}", label));
+        }
+    }
+
+    // ---- Gaussian::approximating: mean and population variance of the data -------------------------
+    for len in 0..=(if g.thorough { 9 } else { 6 }) {
+        for _ in 0..(if g.thorough { 6 } else { 3 }) {
+            let data = fps(g, len);
+            g.op(format!("@ approx fp {}", show_elems(&data)));
+            g.count(&format!("approx.fp.len={}", len));
+            let data: Vec<Rat> =
+                (0..len).map(|_| Rat::new(g.rng.below(21) as i128 - 10, *g.rng.pick(&[1i128, 1, 2, 3, 5]))).collect();
+            g.op(format!("@ approx rat {}", show_elems(&data)));
+            g.count(&format!("approx.rat.len={}", len));
         }
     }
 
